@@ -346,6 +346,10 @@ def stepT (st : St) (op : List String) (impl : Option (List String)) : St × Str
     | .fuel => finishT st "diverges" t (judgeT impl false none2)
     | .exc => finishT st "exc:bpp" t (judgeT impl false none2)
     | .ub => finishT st "ub" t (judgeT impl false none2)
+  | ["t.createNodeFromNode", o] => mutr (t.lift (t.g.createNodeFromNode (nat o))) toString
+  | ["t.createNodeOnEdge", e] => mutr (t.lift (t.g.createNodeOnEdge (nat e))) toString
+  | ["t.createNodeFromEdge", e] => mutr (t.lift (t.g.createNodeFromEdge (nat e))) toString
+  | ["t.orientate"] => mutr t.orientate okS
   | ["t.setOutGroup", n] =>
     match t.setOutGroup (nat n) with
     | .ok r => finishT st (gres okS r.1) r.2 (judgeT impl false none2)
@@ -771,6 +775,28 @@ def stepW (st : St) (op : List String) (impl : Option (List String)) : St × Str
         | some ob => "linking " ++ showOpt ((World.edgeLinking tw.w ob (nat j) (nat k)).map showOO)
         | none => "ub"
       finishW st res tw (judgeW impl false none2)
+    else if o == "o.qi" then
+      -- the index overloads (called by the harness on an indexed temporary copy of the observer) answer what the object
+      -- overloads answer (theorems `obs_copy_same_tree(_rest)`): the model's answers are those of the object level
+      let (v, tw1) := tw.isValid
+      if v == .exc then finishW st "exc:bpp" tw1 (judgeW impl false none2) else
+      if v != .ok true || !tw1.w.g.directed then finishW st "notrooted" tw1 (judgeW impl false none2) else
+      let a := nat j
+      let b := nat k
+      let sh (r : TRes (List Obj)) : String := match r with | .ok l => showObjs l | .exc => "exc:bpp" | .fuel => "diverges" | .ub => "ub"
+      match tw1.w.getObs st.osel with
+      | none => finishW st "ub" tw1 (judgeW impl false none2)
+      | some ob =>
+        if (AL.find a ob.Ng).isNone || (AL.find b ob.Ng).isNone then finishW st "exc:bpp" tw1 (judgeW impl false none2) else
+        let ef := tw1.edgeToFather ob a
+        let ends : Option (Option Obj × Option Obj) := match ef with | some (some x) => World.edgeEnds tw1.w ob x | _ => none
+        let endS (f : Option Obj × Option Obj → Option Obj) : String := match ends with | some p => (match f p with | some n => toString n | none => "exc:bpp") | none => "exc:bpp"
+        let res := s!"ef {showOpt (ef.map showOO)} hf {showOpt ((tw1.hasFatherObj ob a).map showBool)} " ++
+          s!"sons {showOpt ((World.nodeQuery tw1.w ob a (fun g n => g.outNeighbors n) false).map showObjs)} " ++
+          s!"br {showOpt ((World.nodeQuery tw1.w ob a (fun g n => g.outEdges n) true).map showObjs)} " ++
+          s!"lu {sh (tw1.leavesUnderObj ob a)} np {sh (tw1.nodePathObj ob a b)} ep {sh (tw1.edgePathObj ob a b)} " ++
+          s!"sn {sh (tw1.subtreeNodesObj ob a)} se {sh (tw1.subtreeEdgesObj ob a)} so {endS (·.2)} fe {endS (·.1)}"
+        finishW st res tw1 (judgeW impl false none2)
     else if o == "o.qt" then
       -- the object-level queries of a valid rooted tree
       let (v, tw1) := tw.isValid
@@ -827,6 +853,7 @@ def stepW (st : St) (op : List String) (impl : Option (List String)) : St × Str
     | .fuel => finishW st "diverges" tw (judgeW impl false none2)
     | .exc => finishW st "exc:bpp" tw (judgeW impl false none2)
     | .ub => finishW st "ub" tw (judgeW impl false none2)
+  | ["o.setRoot", a] => mutr (tw.setRootObj st.osel (nat a)) none2
   | ["o.valid"] =>
     let (r, tw') := tw.isValid
     finishW st (showR showBool r) tw' (judgeW impl true none2)
@@ -980,6 +1007,19 @@ def stepDW (st : St) (op : List String) (impl : Option (List String)) : St × St
         | none => none
       | none => none
     finishDW st res dw (judgeDW impl false spec)
+  | ["w.setRoot", a] => mutr (dw.setRootObj k (nat a)) none2
+  | ["w.qi", a, x] =>
+    -- the index overloads of the DAG observer, called by the harness on an indexed temporary copy
+    let res := match dw.w.getObs k with
+      | some ob =>
+        let na := if (AL.find (nat a) ob.Ng).isNone then "hf exc:bpp fa exc:bpp sons exc:bpp" else
+          s!"hf {o (((AL.find (nat a) ob.Ng).bind (T.hasFather dw.w.g)).map showBool)} fa {o ((dw.fathersObj ob (nat a)).map showObjs)} sons {o ((dw.sonsObj ob (nat a)).map showObjs)}"
+        let oo (r : Option (Option Obj)) : String := match r with | some (some n) => toString n | _ => "exc:bpp"
+        let ex := if (AL.find (nat x) ob.Eg).isNone then "son exc:bpp fe exc:bpp" else
+          s!"son {oo (dw.sonOfEdge ob (nat x))} fe {oo (dw.fatherOfEdge ob (nat x))}"
+        na ++ " " ++ ex
+      | none => "ub"
+    finishDW st res dw (judgeDW impl false none2)
   | ["w.qe", x] =>
     let res := match dw.w.getObs k with
       | some ob => s!"son {o ((dw.sonOfEdge ob (nat x)).map showOO)} fa {o ((dw.fatherOfEdge ob (nat x)).map showOO)}"
